@@ -112,7 +112,7 @@ def first_repo_frame(err):
     first = None
     for m in re.finditer(r"#\d+ 0x[0-9a-f]+ in (\S+) (\S+)", err):
         fn, loc = m.group(1), m.group(2)
-        if "/repo/" in loc:
+        if "/repo/" in loc or (build.REPO.rstrip("/") + "/") in loc:
             return "%s(%s)" % (fn, os.path.basename(loc.split(":")[0]))
         if first is None and not fn.startswith("__interceptor") and not fn.startswith("__asan") and not fn.startswith("__sanitizer"):
             first = fn
